@@ -19,7 +19,11 @@ META = {
                  "replayed into a freshly keyed real receiver Transport, each followed by silence or end-of-file",
     "text": "Per suite a 3-message stream (5, 40, 17 bytes) recorded after NEWKEYS: every byte position x {xor 0x01, "
             "xor 0x80, xor 0xff, delete, insert 0x00, truncate}; every swap of two packets, every drop, every "
-            "duplication/replay position; every edit is run twice - new dimension 'stream end': after the edited bytes recv() "
+            "duplication/replay position; new dimension 'large packet': streams whose middle message fills a maximum-size "
+            "packet (5, 35000, 17 bytes; quick: 14 class representatives, thorough: all 144 suites, both directions) with "
+            "xor 0x01 / xor 0x80 at every position within 48 bytes of either end of the large packet and at every 64th "
+            "(thorough: 16th) position in between, and xor 0xff / delete / insert / truncate at every 1024th position; "
+            "every edit of the short streams is run twice - new dimension 'stream end': after the edited bytes recv() "
             "blocks (the receiver waits) or returns end-of-file (the attacker closes the connection, i.e. a deletion of "
             "everything that follows); thorough adds all pairs of bit flips inside the first packet and (length-"
             "field byte, any byte) pairs. Quick: all 144 suites client->server plus 14 class representatives "
@@ -55,6 +59,25 @@ QUICK_SUITES = (
 )
 
 
+# dimension "large packet": the middle message fills a maximum-size SSH packet (RFC 4253 6.1: 35000 bytes), so the
+# integrity check has to cover tens of kilobytes; edit positions form a stated grid instead of every byte
+LARGE_LENGTHS = (5, 35000, 17)
+LARGE_EDGE = 48                 # every position this close to either end of the large packet ...
+LARGE_STRIDE = {"quick": 64, "thorough": 16}       # ... and every stride-th position in between
+LARGE_COARSE = 1024             # delete / insert / truncate: every position that is a multiple of this
+
+
+def large_positions(packets, tier):
+    """(flip positions, delete/insert/truncate positions) as offsets into the encrypted stream."""
+    start = len(packets[0])
+    end = start + len(packets[1])
+    stride = LARGE_STRIDE["quick" if tier == "quick" else "thorough"]
+    flips = set(range(start, start + LARGE_EDGE)) | set(range(end - LARGE_EDGE, end))
+    flips |= set(range(start, end, stride))
+    coarse = set(range(start, end, LARGE_COARSE)) | {start, start + 1, start + 4, end - 1}
+    return sorted(flips), sorted(coarse)
+
+
 def suite_class(suite):
     c, m, _z = suite
     if P.is_gcm(c):
@@ -63,17 +86,17 @@ def suite_class(suite):
     return ("etm-" if P.is_etm(m) else "classic-") + mode
 
 
-def make_script(suite, suite2=None):
+def make_script(suite, suite2=None, lengths=LENGTHS):
     """One suite: NEWKEYS, m0, m1, m2.  With suite2: NEWKEYS, m0, NEWKEYS (encrypted, re-key to suite2), m1, m2."""
-    m = [("msg", n, False, PTYPES[i], 20 + i) for i, n in enumerate(LENGTHS)]
+    m = [("msg", n, False, PTYPES[i], 20 + i) for i, n in enumerate(lengths)]
     first = ("switch",) + tuple(suite) + (False,)
     if suite2 is None:
         return [first] + m
     return [first, m[0], ("switch",) + tuple(suite2) + (False,)] + m[1:]
 
 
-def record(direction, suite, suite2=None):
-    script = make_script(suite, suite2)
+def record(direction, suite, suite2=None, lengths=LENGTHS):
+    script = make_script(suite, suite2, lengths)
     _stream, chunks, sent = P.transmit(direction, script)
     return script, chunks[0], chunks[1:], sent
 
@@ -157,6 +180,8 @@ def intact_packets(packets, edited):
     enc = b"".join(packets)
     lcp = 0
     n = min(len(enc), len(edited))
+    while lcp + 512 <= n and enc[lcp:lcp + 512] == edited[lcp:lcp + 512]:     # whole equal blocks first (large streams)
+        lcp += 512
     while lcp < n and enc[lcp] == edited[lcp]:
         lcp += 1
     k, off = 0, 0
@@ -201,6 +226,87 @@ def run_edit(direction, script, newkeys, sent, edited, end="waits"):
     return P.receive(direction, script, newkeys + edited, extra_reads=2, eof=(end == "eof"))
 
 
+def run_edits(acc, direction, suite, suite2, cls, script, newkeys, packets, sent, regions, edits, ends, large=False):
+    enc = b"".join(packets)
+    for lab, pos, edited in edits:
+        if edited == enc:
+            acc.count("edits_identical_to_original")
+            continue
+        n_intact, lcp = intact_packets(packets, edited)
+        region = region_at(regions, lcp) if lab not in ("swap", "drop", "dup") else "packet"
+        for end in ends:
+            r = run_edit(direction, script, newkeys, sent, edited, end)
+            acc.ev()
+            clause = judge(sent, r, n_intact)
+            if clause == "accepted-tampered-packet" and not STRICT_TAMPERED_PACKET:
+                acc.count("tampered_packets_accepted_unchanged")
+                clause = None
+            if clause:
+                dims = {"framing": cls, "mac": "-" if cls in ("gcm", "rekey") else suite[1], "zlib": suite[2] != "none",
+                        "edit": "flip" if EDIT_CLASS[lab] == "flip2" else EDIT_CLASS[lab], "end": end,
+                        "packet": "large" if large else "small"}
+                rep = {"suite": list(suite), "suite2": list(suite2) if suite2 else None, "dir": direction,
+                       "edit": lab, "pos": list(pos), "end": end}
+                if large:
+                    rep["large"] = True
+                P.sig_violation(acc, clause, dims, {"suite": suite, "dir": direction, "edit": lab, "pos": list(pos), "region": region,
+                                    "stream_end": end, "first_changed_byte": lcp, "intact_packets": n_intact,
+                                    "message_lengths": [len(x) for x in sent],
+                                    "offset_in_large_packet": offset_class(lcp - len(packets[0])) if large else None,
+                                    "delivered": [g[:24] for g in r.got], "sent": [x[:24] for x in sent],
+                                    "then": outcome_of(r) if (r.waits or r.error) else "none"}, rep)
+            elif large:
+                acc.nt(("large", suite, EDIT_CLASS[lab], region, (lcp - len(packets[0])) // 4096, r.done - 1, end))
+                acc.count("large_packet_edits")
+                acc.count("outcome:" + outcome_of(r))
+            else:
+                acc.nt((suite, suite2, EDIT_CLASS[lab], region, r.done - 1, end))
+                acc.count("outcome:" + outcome_of(r))
+                acc.count("packets_accepted_before_stop_%d" % (r.done - 1))
+
+
+OFFSETS = ("<4KiB", "4-8KiB", "8-16KiB", "16-32KiB", ">=32KiB")
+
+
+def offset_class(off):
+    """Where in the large packet the first changed byte lies (violation detail only)."""
+    for name, lim in zip(OFFSETS, (4096, 8192, 16384, 32768)):
+        if off < lim:
+            return name
+    return OFFSETS[-1]
+
+
+def do_large(item, acc):
+    """Stream whose middle packet is of maximum size: edits on the position grid of large_positions()."""
+    _, tier, suite, direction = item
+    script, newkeys, packets, sent = record(direction, suite, None, LARGE_LENGTHS)
+    enc = b"".join(packets)
+    regions = regions_of(direction, script, packets)
+    r0 = run_edit(direction, script, newkeys, sent, enc)
+    if r0.got != sent or not r0.waits:
+        raise AssertionError("seam: unedited large stream not delivered for %r: %r" % (suite, r0.error))
+    flips, coarse = large_positions(packets, tier)
+    edits = ((lab, (pos,), data) for lab, pos, data in       # generators: never hold thousands of 35 kB copies
+             E.byte_edits(enc, xors=(0x01, 0x80), positions=flips, delete=False, insert=False, truncate=False))
+    run_edits(acc, direction, suite, None, suite_class(suite), script, newkeys, packets, sent, regions, edits,
+              ("waits",), large=True)
+    edits = ((lab, (pos,), data) for lab, pos, data in E.byte_edits(enc, xors=(0xFF,), positions=coarse))
+    run_edits(acc, direction, suite, None, suite_class(suite), script, newkeys, packets, sent, regions, edits,
+              ENDS, large=True)
+    run_edits(acc, direction, suite, None, suite_class(suite), script, newkeys, packets, sent, regions,
+              packet_edits(packets), ENDS, large=True)
+    acc.cmax("max_stream_len", len(enc))
+    acc.cmax("max_packet_wire_len", len(packets[1]))
+    if suite == QUICK_SUITES[0] and direction == "c2s":
+        acc.sample({"part": "large", "suite": suite, "dir": direction, "message_lengths": list(LARGE_LENGTHS),
+                    "packet_wire_lengths": [len(p) for p in packets], "flip_positions": len(flips),
+                    "delete_insert_truncate_positions": len(coarse)})
+
+
+def run_item(item, acc):
+    {"suite": do_suite, "large": do_large}[item[0]](item, acc)
+
+
 def do_suite(item, acc):
     _, tier, suite, direction = item[:4]
     suite2 = item[4] if len(item) > 4 else None
@@ -220,32 +326,7 @@ def do_suite(item, acc):
     if tier != "quick" and suite2 is None:
         edits += list(double_edits(packets))
     acc.cmax("max_stream_len", len(enc))
-    for lab, pos, edited in edits:
-        if edited == enc:
-            acc.count("edits_identical_to_original")
-            continue
-        n_intact, lcp = intact_packets(packets, edited)
-        region = region_at(regions, lcp) if lab not in ("swap", "drop", "dup") else "packet"
-        for end in ENDS:
-            r = run_edit(direction, script, newkeys, sent, edited, end)
-            acc.ev()
-            clause = judge(sent, r, n_intact)
-            if clause == "accepted-tampered-packet" and not STRICT_TAMPERED_PACKET:
-                acc.count("tampered_packets_accepted_unchanged")
-                clause = None
-            if clause:
-                dims = {"framing": cls, "mac": "-" if cls in ("gcm", "rekey") else suite[1], "zlib": suite[2] != "none",
-                        "edit": "flip" if EDIT_CLASS[lab] == "flip2" else EDIT_CLASS[lab], "end": end}
-                P.sig_violation(acc, clause, dims, {"suite": suite, "dir": direction, "edit": lab, "pos": list(pos), "region": region,
-                                    "stream_end": end, "first_changed_byte": lcp, "intact_packets": n_intact,
-                                    "delivered": [g[:24] for g in r.got], "sent": [s[:24] for s in sent],
-                                    "then": outcome_of(r) if (r.waits or r.error) else "none"},
-                              {"suite": list(suite), "suite2": list(suite2) if suite2 else None, "dir": direction,
-                               "edit": lab, "pos": list(pos), "end": end})
-            else:
-                acc.nt((suite, suite2, EDIT_CLASS[lab], region, r.done - 1, end))
-                acc.count("outcome:" + outcome_of(r))
-                acc.count("packets_accepted_before_stop_%d" % (r.done - 1))
+    run_edits(acc, direction, suite, suite2, cls, script, newkeys, packets, sent, regions, edits, ENDS)
     if suite in (QUICK_SUITES[0], QUICK_SUITES[8], QUICK_SUITES[11]) and direction == "c2s":
         acc.sample({"suite": suite, "dir": direction, "message_lengths": list(LENGTHS),
                     "packet_wire_lengths": [len(p) for p in packets],
@@ -254,9 +335,11 @@ def do_suite(item, acc):
 
 def items_for(tier):
     if tier == "quick":
-        return [("suite", tier, s, "c2s") for s in P.all_suites()] + \
+        return [("large", tier, s, d) for s in QUICK_SUITES for d in ("c2s", "s2c")] + \
+               [("suite", tier, s, "c2s") for s in P.all_suites()] + \
                [("suite", tier, s, "s2c") for s in QUICK_SUITES]
-    items = [("suite", tier, s, d) for s in P.all_suites() for d in ("c2s", "s2c")]
+    items = [("large", tier, s, d) for s in P.all_suites() for d in ("c2s", "s2c")]
+    items += [("suite", tier, s, d) for s in P.all_suites() for d in ("c2s", "s2c")]
     reps = QUICK_SUITES[0:1] + QUICK_SUITES[6:14]
     items += [("suite", tier, a, "c2s", b) for a in reps for b in reps]      # streams crossing a re-key
     return items
@@ -269,20 +352,25 @@ def main(tier):
         "nontrivial = distinct (cipher, MAC, compression, edit class [flip|delete|insert|truncate|swap|drop|replay|"
         "flip2], what recv() answers when the edited stream is used up [waits | eof], region of the first changed byte as located by the independent decoder [length|padlen|payload|"
         "padding|mac, or whole packet], number of messages delivered before the receiver stopped) tuples whose edit "
-        "really changed the stream and for which the oracle held",
+        "really changed the stream and for which the oracle held; large-packet streams add the 4 KiB bucket of the "
+        "first changed byte inside the 35000-byte packet",
         ["receiver keyed like the sender from fixed K/H/session id; sender side is paramiko (recorded once per suite)",
          "adversary bounded to one edit per stream (thorough: also two bit flips), each followed by either silence or a "
          "closed connection; recv() otherwise returns exactly what is asked",
          "STRICT_TAMPERED_PACKET=%s: a packet that is no longer byte-identical to the sender's must not be delivered "
          "even if it decodes to the same message" % STRICT_TAMPERED_PACKET])
     items = items_for(tier)
-    ck.merge(core.pmap(items, do_suite))
+    ck.merge(core.pmap(items, run_item))
     P.regroup(ck, {"framing": {"classic-ctr", "classic-cbc", "etm-ctr", "etm-cbc", "gcm"} | (
                        set() if tier == "quick" else {"rekey"}),
                    "mac": set(P.MACS), "zlib": {True, False},
-                   "edit": set(EDIT_CLASS.values()) - {"flip2"}, "end": set(ENDS)})
+                   "edit": set(EDIT_CLASS.values()) - {"flip2"}, "end": set(ENDS), "packet": {"small", "large"}})
     ck.extra["bound"] = {"suites": len(set(i[2] for i in items)), "work_items": len(items),
-                         "message_lengths": list(LENGTHS), "double_faults": tier != "quick"}
+                         "message_lengths": list(LENGTHS), "double_faults": tier != "quick",
+                         "large_packet": {"message_lengths": list(LARGE_LENGTHS),
+                                          "streams": len([i for i in items if i[0] == "large"]),
+                                          "flip_stride": LARGE_STRIDE["quick" if tier == "quick" else "thorough"],
+                                          "flip_edge": LARGE_EDGE, "delete_insert_truncate_stride": LARGE_COARSE}}
     return ck.finish()
 
 
@@ -290,9 +378,13 @@ def replay(rec):
     case = rec["replay"]
     suite, direction, lab, pos = tuple(case["suite"]), case["dir"], case["edit"], tuple(case["pos"])
     suite2 = tuple(case["suite2"]) if case.get("suite2") else None
-    script, newkeys, packets, sent = record(direction, suite, suite2)
+    large = bool(case.get("large"))
+    script, newkeys, packets, sent = record(direction, suite, suite2, LARGE_LENGTHS if large else LENGTHS)
     enc = b"".join(packets)
-    cands = [(l, (p,), d) for l, p, d in E.byte_edits(enc)] + list(packet_edits(packets))
+    if large and lab not in ("swap", "drop", "dup"):
+        cands = [(l, (p,), d) for l, p, d in E.byte_edits(enc, positions=list(pos))]
+    else:
+        cands = [(l, (p,), d) for l, p, d in E.byte_edits(enc)] + list(packet_edits(packets))
     if lab in ("flip2", "len+flip"):
         cands = double_edits(packets)
     for l, p, edited in cands:
@@ -305,8 +397,8 @@ def replay(rec):
     end = case.get("end") or "waits"
     r = run_edit(direction, script, newkeys, sent, edited, end)
     clause = judge(sent, r, n_intact)
-    print("suite", suite, direction, "edit", lab, pos, "first changed byte", lcp, "intact packets", n_intact,
-          "stream end", end)
+    print("suite", suite, direction, "message lengths", [len(x) for x in sent], "edit", lab, pos,
+          "first changed byte", lcp, "intact packets", n_intact, "stream end", end)
     print("sent     ", [s.hex()[:48] for s in sent])
     print("delivered", [g.hex()[:48] for g in r.got])
     print("then", outcome_of(r) if (r.waits or r.error) else "none", "| verdict:", clause or "property held")
